@@ -229,6 +229,34 @@ func VerifHarness_CraftedFrameLength() {
 	}
 }
 
+// The inflate contract in isolation: for every small claimed size and every inflate outcome the body
+// is accepted exactly when it inflates to exactly the claimed size (not fewer, not more, not corrupt),
+// and then yields exactly those bytes.
+func VerifHarness_InflateExact() {
+	zz.MaxLen(8)
+	zz.Unwind(48)
+	claimed := 1 + zz.Choose(4)
+	infl := &zzInflater{out: zz.Bytes(zz.Choose(7)), corrupt: zz.Bool()}
+	zz.ReplaceSym("compress/zlib.NewReader", func(r io.Reader) (io.ReadCloser, error) { infl.src = r; return infl, nil })
+	if zz.Native() {
+		zz.NativeUnsupported("the inflate outcome is provided by the symbolic inflater stub")
+	}
+	d := zzDecoder(nil, zz.Bool())
+	d.SetCompressionThreshold(zz.Choose(2))
+	if zz.Bool() {
+		// a second frame on the same connection reuses the zlib reader (Reset path)
+		_, _ = d.decompress(claimed, bytes.NewReader([]byte{0x78, 0x9c}))
+	}
+	got, err := d.decompress(claimed, bytes.NewReader([]byte{0x78, 0x9c}))
+	if !infl.corrupt && len(infl.out) == claimed {
+		zz.Assert(err == nil && bytes.Equal(got, infl.out), "a body inflating to exactly the claimed size was rejected or altered")
+		zz.Reach("inflate-exact")
+	} else {
+		zz.Assert(err != nil, "a body that does not inflate to exactly the claimed size (shorter, longer or corrupt) was accepted")
+		zz.Reach("inflate-mismatch")
+	}
+}
+
 func VerifMutant_HostileStream() {
 	// control: a frame of exactly threshold+1 uncompressed bytes must be rejected
 	stream := []byte{3, 0, 7, 7}
